@@ -427,13 +427,13 @@ def mutate (s : State) : Mut → State
 
 inductive Step
   | api (a : Api)
-  | mut (m : Mut)
+  | mutation (m : Mut)
 deriving Repr
 
 /-- one step of a trace; a mutation of an object the client does not hold is impossible -/
 def step (s : State) : Step → State
   | .api a => (api s a).1
-  | .mut m => if m.held s then mutate s m else s
+  | .mutation m => if m.held s then mutate s m else s
 
 /-- any interleaving of API calls and client mutations from the initial state -/
 inductive Reachable : State → Prop
